@@ -343,10 +343,19 @@ func runCycle(h History, s *Sorter, ci int, outp *Outcome, fail func(string, err
 				sort.Ints(missing)
 				return out, errf("lost-values", "cycle %d (%d pushed, chunk %d, spilled=%v): io.EOF after %d values; missing keys %v", ci, len(c.Keys), h.Chunk, spilled, pulled, clip(missing)), false
 			}
+			// the Pull that reported io.EOF delivered nothing and so moved nothing
+			if !h.AutoClear {
+				if got := s.M.Pos(); got != int64(pulled) {
+					return out, errf("pos", "cycle %d: Pos() = %d after %d pulls and the Pull that returned io.EOF", ci, got, pulled), false
+				}
+			}
 			// EOF is stable
 			if !c.EOFOnce {
 				if _, err := s.Pull(); err != io.EOF {
 					return out, errf("eof-not-stable", "cycle %d: Pull after io.EOF returned %v", ci, err), false
+				}
+				if got := s.M.Pos(); !h.AutoClear && got != int64(pulled) {
+					return out, errf("pos", "cycle %d: Pos() = %d after %d pulls and two Pulls that returned io.EOF", ci, got, pulled), false
 				}
 			}
 			if mark != nil {
